@@ -129,9 +129,10 @@ def gen_triple(r, scenario=None, minor=None):
     minor = minor if minor is not None else r.choice([5, 5, 4])
     L, R = Fresh('L'), Fresh('R')
     base = gen_base(r, minor)
+    nc = len(base['cells'])
+    k = r.randrange(nc)
     if scenario.startswith('clash'):
         # one cell long enough to host separate regions
-        k = r.randrange(len(base['cells']))
         n = {'clash1': 1, 'clash2': 2, 'clash3': 3, 'clash_last_nonl': 1}[scenario]
         ls = [BASE_LINES[j % len(BASE_LINES)] + ' # %d' % j for j in range(r.choice([3, 4]) * n + r.choice([0, 1, 2]))]
         base['cells'][k]['source'] = join_lines(ls, scenario != 'clash_last_nonl' and r.random() < 0.5)
@@ -139,11 +140,9 @@ def gen_triple(r, scenario=None, minor=None):
     swap = r.random() < 0.5
     A, B = (local, remote) if not swap else (remote, local)
     FA, FB = (L, R) if not swap else (R, L)
-    nc = len(base['cells'])
-    k = r.randrange(nc)
     if scenario.startswith('clash'):
         ls = lines_of(base['cells'][k]['source'])
-        real = [i for i, l in enumerate(ls) if l != '' or i < len(ls) - 1]
+        real = [i for i, l in enumerate(ls) if l != '' or i < len(ls) - 1] or [0]
         if scenario == 'clash_last_nonl':
             idx = [real[-1]]
         else:
